@@ -90,6 +90,7 @@ EdgeBody(k) == LET src == EdgeSeq[k]  d == [q |-> "d", src |-> src] IN
 \* of the lines (YangString!Exo2): they are ordinary characters of the argument
 ExoSeq == SetToSeq(UNION {Exo2(x, 12, <<LF>>, FALSE) \cup Exo2(x, 3, <<CR, LF>>, FALSE) : x \in ExoChars})
 NExo == Len(ExoSeq)
+ExoStep == IF Thorough THEN 16 ELSE 40      \* every 16th / 40th source
 ExoBody(k) == LET src == ExoSeq[k]  d == [q |-> "d", src |-> src] IN
   <<RawNode(C("x:b-c"), <<d>>, << >>),
     Cont(Ids[1], <<RawNode(C("description"), <<d>>, << >>), RawNode(C("x:b-c"), <<[q |-> "s", src |-> src]>>, << >>)>>)>>
@@ -209,7 +210,7 @@ Cases ==
   \cup UNION {Layouts(fam, 500 + k, ChoiceBody(k), "light2") : k \in {k \in 0..(NChoice - 1) : k % NFam = fam % NFam}}
   \cup UNION {Layouts(fam, 3000 + k, EdgeBody(k), "light2") : k \in {k \in 1..NEdge : k % NFam = fam % NFam /\ (Thorough \/ k % 3 = 0)}}
   \cup UNION {Layouts(fam, 2000 + k, EscBody(k), "light2") : k \in {k \in 1..NEsc : k % NFam = fam % NFam /\ (Thorough \/ k % 2 = 0)}}
-  \cup UNION {Layouts(fam, 7000 + k, ExoBody(k), "light2") : k \in {k \in 1..NExo : k % NFam = fam % NFam /\ k % (IF Thorough THEN 16 ELSE 40) = 0}}
+  \cup UNION {Layouts(fam, 7000 + k, ExoBody(k), "light2") : k \in {k \in 1..NExo : k % ExoStep = 0 /\ (k \div ExoStep) % NFam = fam % NFam}}
   \cup UNION {UNION {BigLayouts(fam, 4000 + 4 * n + v, BigBody(n, v), n) : v \in BigVariants(n)} : n \in {n \in BigSizes : n % NFam = fam % NFam}}
   \cup UNION {BomLayouts(fam, 6000 + i, Small[i]) : i \in {i \in 1..Len(Small) : i % NFam = fam % NFam /\ (Thorough \/ i % 2 = 0)}}
   \cup UNION {BomLayouts(fam, 6500 + n, BigBody(n, 1)) : n \in {n \in {3, 17, 33} : n % NFam = fam % NFam}}
